@@ -248,7 +248,8 @@ def run_check(pid, tier, seed, wall_cap=None, out_evidence=True, verbose=True):
     else:
         code = EXIT_OK
     if harness_errors and lines:
-        code = EXIT_HARNESS
+        # a violation that reproduced in a fresh interpreter stands on its own, whatever else went wrong
+        code = EXIT_VIOLATION
 
     if out_evidence:
         ev = {
